@@ -150,6 +150,20 @@ theorem copy_each_sees_all {σ : Type} (S : Src σ) (n : Nat) (hn : 0 < n) (s0 :
     have := inv.eofAll i he
     exact ⟨this.2, inv.eofMem.mp this.1⟩
 
+/-- **copy_each_sees_all, finite source.** Over a source that delivers exactly the items `l`
+    and then `io.EOF` (and that nobody else touches), a child that saw `io.EOF` has received
+    exactly `l` — whatever the other children did in between. -/
+theorem copy_reads_whole_source (l : List Item) (n : Nat) (hn : 0 < n)
+    (evs : List (CEv (List Item))) (hne : ∀ e ∈ evs, e.isEnv = false) (y : CopySys (List Item))
+    (hr : (CopySys.init n l).run copyFactsGen listSrc evs = some y) (i : Nat)
+    (he : eofOf i y.outs = true) : itemsOf i y.outs = l := by
+  have h1 := (copy_each_sees_all listSrc n hn l evs y hr i).2 he
+  have inv : LInv l (CopySys.init n l) := ⟨by simp [CopySys.init], by simp [CopySys.init]⟩
+  have h2 := inv.run hne hr
+  have h3 := h2.split
+  rw [h2.done h1.2, List.append_nil] at h3
+  rw [h1.1, h3]
+
 /-- **copy_source_closed_once.** The source is closed at most once, and it has been closed
     exactly when every one of the `n` children is closed (closing a child twice changes
     nothing). -/
